@@ -112,11 +112,20 @@ pub fn canon_ref(method: &str, body: &[u8], headers: &[(String, Vec<u8>)], targe
             l
         })
         .collect();
-    hs.sort();
+    // header lines are ordered by header NAME (the convention of Azure's canonicalised headers; a name that is a
+    // prefix of another comes first, which a sort of whole "name:value" lines would get wrong because '-' < ':')
+    hs.sort_by(|a, b| name_of(a).cmp(name_of(b)).then_with(|| a.cmp(b)));
     let (path, pairs) = split_target(target);
     let mut params: Vec<String> = pairs.iter().map(|(k, v)| if v.is_empty() { k.clone() } else { format!("{k}={v}") }).collect();
     params.sort();
     Canon { method: method.to_string(), body: body.to_vec(), header_lines: hs, path, params }
+}
+
+fn name_of(line: &[u8]) -> &[u8] {
+    match line.iter().position(|b| *b == b':') {
+        Some(i) => &line[..i],
+        None => line,
+    }
 }
 
 /// Parse a string-to-sign produced by the subject, knowing the body length.
@@ -137,9 +146,9 @@ pub fn canon_parse(s: &[u8], body_len: usize) -> Option<Canon> {
     let path = String::from_utf8_lossy(lines.pop()?).to_string();
     let mut header_lines: Vec<Vec<u8>> = lines.iter().map(|l| l.to_vec()).collect();
     let sorted_as_given = header_lines.clone();
-    header_lines.sort();
-    if sorted_as_given != header_lines {
-        return None; // header lines must be sorted
+    header_lines.sort_by(|a, b| name_of(a).cmp(name_of(b)).then_with(|| a.cmp(b)));
+    if sorted_as_given.iter().map(|l| name_of(l)).collect::<Vec<_>>() != header_lines.iter().map(|l| name_of(l)).collect::<Vec<_>>() {
+        return None; // header lines must be ordered by name
     }
     let mut params: Vec<String> = if params_line.is_empty() { vec![] } else { params_line.split('&').map(|x| x.to_string()).collect() };
     params.sort();
